@@ -323,7 +323,6 @@ def evaluate_cases(mod, cases, timeout):
                 findings[-1].line_index = i
                 findings[-1].model = mr
                 break
-        k = k_next
     return findings, stats, impl_replies
 
 
